@@ -116,6 +116,7 @@ def ok_exits(b):
 
 
 def wake_count(F, R, ver):
+    ack_wakes_one(F, R, ver)
     wc = wake_capable(F, ver)
     b = F.one(r'^%s::shared::MqttShared::disable_wr_backpressure$' % ver)
     len_locals = {t['dest']['l'] for bi, t, ap in calls_on_field(b, r'VecDeque::<T, A>::len$', 'inflight')}
@@ -152,6 +153,37 @@ def wake_count(F, R, ver):
                 if any(x == 2 for x, _ in leaves_args(Origin(b).of_operand(a))):
                     ok = True
     R.ob('C13.wake-count', '%s|set_cap|wakes up to cap' % ver, ok, 'set_cap must wake at most `cap` parked senders (one per slot)')
+
+
+def ack_wakes_one(F, R, ver):
+    """A final acknowledgement frees one slot, so it releases at most one parked sender: in pkt_ack_inner
+    (and the helpers it calls) no further waiter is popped after a wake-up was accepted."""
+    root = F.one(r'^%s::shared::MqttShared::pkt_ack_inner$' % ver)
+    bodies = [root] + [F.bodies[q] for bi, t in root.calls() for q in F.call_targets(t) if q in F.bodies and q.startswith('%s::shared::' % ver)]
+    n = 0
+    for b in bodies:
+        pops = {x[0] for x in calls_on_field(b, r'VecDeque::<T, A>::(pop_front|pop_back)$', 'waiters')}
+        if not pops:
+            continue
+        for bi, t, _ap in waiter_sends(b):
+            r = None
+            # result tested through is_ok()/is_err()
+            for xb, xt in b.calls():
+                nm = callee_name(xt) or ''
+                if nm.endswith('::is_ok') or nm.endswith('::is_err'):
+                    og = Origin(b).of_operand(xt['args'][0])
+                    if any(l[0] == 'call' and l[2] == bi for l in og):
+                        rr = call_bool_branch(b, xb)
+                        if rr and rr[0] != 'discr':
+                            r = (rr[1], rr[2]) if nm.endswith('::is_ok') else (rr[2], rr[1])
+            if r is None:
+                continue
+            n += 1
+            accepted, refused = r
+            again = pops & b.reachable(accepted, avoid=[refused])
+            R.ob('C13.wake-count', '%s|%s|one-ack-wakes-at-most-one-sender' % (ver, b.path.split('::')[-1]), not again,
+                 'after a parked sender accepted the wake-up another waiter can be popped for the same acknowledgement: one freed slot is promised to several senders, the window is exceeded', b.loc(bi))
+    R.floor('C13.wake-count', '%s checked wake-ups on the acknowledgement path' % ver, n, 2)
 
 
 def resolves(b, l, targets):
